@@ -1,12 +1,12 @@
 package main
 
 import (
-	"strconv"
 	"fmt"
-	"sort"
 	"go/constant"
 	"go/token"
 	"go/types"
+	"sort"
+	"strconv"
 	"strings"
 
 	"golang.org/x/tools/go/ssa"
@@ -1021,6 +1021,7 @@ func (g *Gen) doReturn(st *BState, in *ssa.Return) {
 		}
 		rst := &BState{heap: st.heap, pc: st.pc, inv: cloneInv(st.inv), prev: cloneInv(st.prev)}
 		g.checkPkgInvs(rst, "Q", fmt.Sprintf("return%d:pkginv:", g.retCount), pos, "true")
+		g.deferCovers(nil, in.Block(), rst, pos)
 	}
 	if g.con == nil {
 		return
@@ -1359,7 +1360,7 @@ func (g *Gen) callOrdinal(in ssa.Instruction, name string) int {
 
 // callSiteObls: `callsite LABEL name: expr` clauses of the function being verified that name this call.
 func (g *Gen) callSiteObls(st *BState, in ssa.Instruction, callee *ssa.Function, rec *callRecord, args map[string]EnvVal, anchor, pos, guard string) {
-	if g.con == nil || len(g.con.CallSites) == 0 {
+	if g.con == nil || (len(g.con.CallSites) == 0 && len(g.con.Covers) == 0) {
 		return
 	}
 	short := rec.callee
@@ -1367,6 +1368,7 @@ func (g *Gen) callSiteObls(st *BState, in ssa.Instruction, callee *ssa.Function,
 		short = short[i+1:]
 	}
 	label := fmt.Sprintf("%s#%d", short, rec.n)
+	g.noteSite(label, st, in, guard)
 	for _, cl := range g.con.CallSites {
 		if cl.Label != label {
 			continue
@@ -1436,7 +1438,7 @@ func dynName(v ssa.Value) string {
 // dynCallSiteObls: call-site clauses on a call through a function value (label <name>#N, N by source order);
 // arg_<param> uses the parameter names of the candidate functions (they share a signature).
 func (g *Gen) dynCallSiteObls(st *BState, in ssa.Instruction, c *ssa.CallCommon, proto *ssa.Function) {
-	if g.con == nil || len(g.con.CallSites) == 0 {
+	if g.con == nil || (len(g.con.CallSites) == 0 && len(g.con.Covers) == 0) {
 		return
 	}
 	name := dynName(c.Value)
@@ -1468,6 +1470,7 @@ func (g *Gen) dynCallSiteObls(st *BState, in ssa.Instruction, c *ssa.CallCommon,
 		}
 	}
 	label := fmt.Sprintf("%s#%d", name, n)
+	g.noteSite(label, st, in, "")
 	a, pos := g.anchor(in.Pos())
 	for _, cl := range g.con.CallSites {
 		if cl.Label != label {
